@@ -109,7 +109,12 @@ def main(argv=None):
             v = dict(v)
         new_violations.append(v)
     for fid, text in res.known:
-        print(f"KNOWN-FINDING: property={args.prop} {text}")
+        if fid in open_ids:
+            print(f"KNOWN-FINDING: property={args.prop} {fid}: {text}")
+        else:
+            # still failing but not (or no longer) listed in known_findings.json: a violation like any other
+            new_violations.append({"property": args.prop, "finding": None, "observed": text,
+                                   "expected": "property holds", "what": f"{fid} fails and is not listed as an open finding"})
 
     proof_notes = {
         "theorems": {t: axioms.get(t) for t in obligations},
